@@ -115,6 +115,23 @@ PENDING = "check not built yet in this session (planned, see DESIGN.md §5)"
 ALL = ["C%02d" % i for i in range(1, 21)]
 
 
+# additions made after the mutant rounds 9-14 (appended to the level text of the check)
+EXTRA = {
+    "C01": " Timestamps also lie 100 and 600 us after the last block (sub-millisecond parts); transactions may have length zero.",
+    "C02": " Followers run with a seeded pending-block limit (0-3); a third of the P2P polls come while events are still queued for the sync loop.",
+    "C03": " In the whole-node attacks the adversarial peer is also a lying exchange server (listed by the victims as a configured peer) that answers header-exchange requests with headers valid in themselves at the requested height, the next one or far above.",
+    "C08": " In the real-loops family the DA layer answers after 0-9 s.",
+    "C09": " Followers run with a seeded pending-block limit; a quarter of the scenarios use a chain with a custom signature payload provider; one in thirty starts its first retrieve with the sync loop's input channels full.",
+    "C10": " Next requests carry size limits of 0, 1, 10 bytes or 1 MiB.",
+    "C11": " A third of the histories configure a pending-block limit (1-3) with steps in which only one of the two submission loops gets its turn.",
+    "C13": " The sync-service interleavings (first item vs head lookups, restart, duplicate appends as go-header's syncer produces them) are enumerated under a park-and-release scheduler (process death and deadlock verdicts) and run free-running in a race-detector build; whole-node timelines have slow goroutines (scheduling jitter), a DA layer that does not watch the caller's context, and inclusion liveness for a sequencer that was never killed.",
+    "C14": " Heights are offset per scenario by 0, 250, 2^32, 2^49, 2^56-4, 2^62 or 2^64-17; the signature stored beside a block is its own bytes, the header's, or empty.",
+    "C15": " Application keys next to, below and above the reserved ones are written too.",
+    "C16": " One scenario in twelve runs at the client's built-in production size limit (1 974 272 bytes) with blobs of that order.",
+    "C19": " Six key files written by the tree as it was when the check was built (passphrases of 1-4096 bytes) are stored with the check and must keep loading; near misses include digests and prefixes of the right passphrase.",
+    "C20": " A quarter of the scenarios use commitment-style blob ids with the same blob more than once in a height; one in twenty-five has transactions of 300-700 kB.",
+}
+
 def main():
     try:
         commits = subprocess.check_output(["git", "-C", "/repo", "log", "--format=%H %s"], text=True).splitlines()
@@ -133,7 +150,7 @@ def main():
             "evidence_file": "/verif/evidence/%s.json" % pid,
             "replay_cmd_template": "bin/check %s quick --replay {path}" % pid,
             "engine": engine,
-            "level_claimed": {"category": level, "text": text, "design_ref": ref},
+            "level_claimed": {"category": level, "text": text + EXTRA.get(pid, ""), "design_ref": ref},
             "level_note": note,
             "technique": tech,
         })
